@@ -38,6 +38,7 @@ type caseA struct {
 	Clients int             `json:"clients"`
 	Ops     []op            `json:"ops"`
 	Status  int             `json:"receiver_status,omitempty"` // what the receiver answers a notification with (0 = 200): any 2xx acknowledges it
+	Reply   string          `json:"receiver_reply,omitempty"`  // the body of that answer (a receiver may well say "ok")
 }
 
 type record struct {
@@ -64,6 +65,7 @@ var (
 	lastAt   time.Time
 	// recvStatus: the status the receiver answers with (guarded by recvMu; set per case)
 	recvStatus int
+	recvReply  string
 )
 
 func receiver() string {
@@ -83,6 +85,9 @@ func receiver() string {
 			defer recvMu.Unlock()
 			if recvStatus != 0 {
 				w.WriteHeader(recvStatus)
+			}
+			if recvReply != "" && recvStatus != 204 {
+				w.Write([]byte(recvReply))
 			}
 			lastAt = time.Now()
 			if err := json.Unmarshal(b, &doc); err != nil {
@@ -136,7 +141,7 @@ type stats struct {
 func execA(c caseA) (st stats, err error) {
 	url := receiver()
 	recvMu.Lock()
-	recvStatus = c.Status
+	recvStatus, recvReply = c.Status, c.Reply
 	recvMu.Unlock()
 	sb, err := gw.NewSandbox("c19")
 	if err != nil {
@@ -485,6 +490,7 @@ func TestC19A(t *testing.T) {
 		}
 		c.Clients = rapid.SampledFrom([]int{1, 2, 4, 8, 16}).Draw(t, "clients")
 		c.Status = rapid.SampledFrom([]int{0, 0, 200, 204, 202, 201}).Draw(t, "receiver_status")
+		c.Reply = rapid.SampledFrom([]string{"", "", "ok", "{\"status\":\"received\"}\n"}).Draw(t, "receiver_reply")
 		maxOps := 40
 		if thorough {
 			maxOps = 200
@@ -502,7 +508,7 @@ func TestC19A(t *testing.T) {
 				}
 			}
 			if o.Kind == "batch" {
-				o.Keys = rapid.SliceOfNDistinct(rapid.IntRange(0, 5), 1, 4, rapid.ID[int]).Draw(t, "batch_keys")
+				o.Keys = rapid.SliceOfNDistinct(rapid.IntRange(0, 15), 1, rapid.SampledFrom([]int{4, 4, 12}).Draw(t, "batch_max"), rapid.ID[int]).Draw(t, "batch_keys")
 			}
 			return o
 		}), 5, maxOps).Draw(t, "ops")
